@@ -19,6 +19,11 @@
                     "f_attr"  new attribute block (Nmaxb := all blocks of the service)
                     "f_wipe"  data blocks Nmaxb .. 1, one per command
      PowerCut     the tag leaves the field between two commands
+     Drop         transient outage: one transmission of the pending command does not reach the tag;
+                    send_cmd_recv_rsp (tt3.py) tries Retries (3) times, then the operation ends with
+                    Type3TagCommandError ("failed") -- although the tag may answer again afterwards,
+                    the writer must not send anything more: the tag stays as the commands that DID
+                    reach it left it (WriteF = 0Fh: not readable)
 
    The tag layer (TagOk / TagApply) is independent of nfcpy: a Write Without Encryption command is a
    list of (service, block, content) elements that is executed completely or not at all.  It serves
@@ -45,7 +50,9 @@ CONSTANTS BS,          \* block size in bytes
           MsgKinds,    \* MC: content patterns of the new message
           Cards,       \* MC: 100*n + 10*pos + act: systems on the card, position of the NDEF system, system the
                        \*     reader was activated in (0 after a wildcard poll, pos after a poll for 12FCh)
-          WithCut, WithFormat
+          WithCut, WithFormat,
+          WithOutage,  \* explore Drop
+          Retries      \* transmissions of one command before the writer gives up (3)
 
 VARIABLES tag,    \* [attr, mem, oth, card]  what is on the tag; card = [n, pos]; oth = the unrelated service
                   \*   of every system, concatenated in system order
@@ -57,8 +64,9 @@ VARIABLES tag,    \* [attr, mem, oth, card]  what is on the tag; card = [n, pos]
           ra,     \* the writer's copy of the attributes (tt3.py:229) / format parameters
           i,      \* next block (write, wipe) / probe size (format)
           ncmd,   \* write commands sent so far (executed or refused)
+          nd,     \* transmissions of the pending command that were lost
           last    \* the last command sent
-vars == <<tag, ridm, tag0, phys, pc, op, msg, ra, i, ncmd, last>>
+vars == <<tag, ridm, tag0, phys, pc, op, msg, ra, i, ncmd, nd, last>>
 
 NDEFRW == 9            \* service code 0009h
 OTHSC  == 4105         \* service code 1009h (unrelated service of the simulated tag)
@@ -154,28 +162,34 @@ WriteNextI == IF pc = "w_on" THEN 1 ELSE i + ra.nbw
 Discover ==
     /\ pc = "fresh"
     /\ pc' = "idle" /\ ridm' = tag.card.pos
-    /\ UNCHANGED <<tag, tag0, phys, op, msg, ra, i, ncmd, last>>
+    /\ UNCHANGED <<tag, tag0, phys, op, msg, ra, i, ncmd, nd, last>>
 
 Begin(m) ==
     /\ pc = "idle" /\ HasNdef(tag)
     /\ op' = "write" /\ msg' = m /\ ra' = tag.attr /\ i' = 0
     /\ pc' = IF ~Writeable(tag) THEN "refused"
              ELSE IF Len(m) > RepCap(tag) THEN "rejected" ELSE "w_on"
-    /\ UNCHANGED <<tag, ridm, tag0, phys, ncmd, last>>
+    /\ UNCHANGED <<tag, ridm, tag0, phys, ncmd, nd, last>>
 
 \* one Write Without Encryption command `c` reaches the tag (c = WriteCmd for the modelled writer)
 WriteStep(c) ==
     /\ pc \in {"w_on", "w_data"}
-    /\ ncmd' = ncmd + 1 /\ last' = c
+    /\ ncmd' = ncmd + 1 /\ last' = c /\ nd' = 0
     /\ IF TagOk(tag, phys, c)
        THEN tag' = TagApply(tag, c) /\ pc' = WriteNextPc /\ i' = WriteNextI
        ELSE tag' = tag /\ pc' = "error" /\ i' = i
     /\ UNCHANGED <<ridm, tag0, phys, op, msg, ra>>
 
+Drop ==
+    /\ op = "write" /\ pc \in {"w_on", "w_data"}
+    /\ nd' = nd + 1
+    /\ pc' = IF nd + 1 >= Retries THEN "failed" ELSE pc
+    /\ UNCHANGED <<tag, ridm, tag0, phys, op, msg, ra, i, ncmd, last>>
+
 PowerCut ==
     /\ op = "write" /\ pc \in {"w_on", "w_data", "done"}
     /\ pc' = "cut"
-    /\ UNCHANGED <<tag, ridm, tag0, phys, op, msg, ra, i, ncmd, last>>
+    /\ UNCHANGED <<tag, ridm, tag0, phys, op, msg, ra, i, ncmd, nd, last>>
 
 \* ------------------------------------------------------------------ nfcpy format (tt3.py:369-460)
 \* ra = [ver, wipe (-1: None), nbw (discovered)]
@@ -184,7 +198,7 @@ FBegin(ver, wipe) ==
     /\ op' = "format" /\ msg' = <<>> /\ i' = 1
     /\ ra' = [ver |-> ver, wipe |-> wipe, nbw |-> 0]
     /\ pc' = IF ver \div 16 # 1 THEN "ffalse" ELSE "f_probe"
-    /\ UNCHANGED <<tag, ridm, tag0, phys, ncmd, last>>
+    /\ UNCHANGED <<tag, ridm, tag0, phys, ncmd, nd, last>>
 
 FNbw(n) == IF n = 13 /\ NB(tag) > 255 THEN 12 ELSE n
 FNewAttr == [ver |-> ra.ver, nbr |-> Min2(15, phys.nbr), nbw |-> FNbw(ra.nbw), nmaxb |-> NB(tag),
@@ -198,7 +212,7 @@ AfterAttr == IF ra.wipe >= 0 /\ NB(tag) > 0 THEN "f_wipe" ELSE "fdone"
 
 FormatStep(c) ==
     /\ pc \in {"f_probe", "f_attr", "f_wipe"}
-    /\ ncmd' = ncmd + 1 /\ last' = c
+    /\ ncmd' = ncmd + 1 /\ last' = c /\ nd' = nd
     /\ LET ok == TagOk(tag, phys, c) IN
        /\ tag' = IF ok THEN TagApply(tag, c) ELSE tag
        /\ CASE pc = "f_probe" ->
@@ -231,13 +245,14 @@ Init ==
             /\ phys = [nbr |-> nbr, nbw |-> nbw]
             /\ ridm = cc % 10
     /\ tag0 = tag
-    /\ pc = "fresh" /\ op = "none" /\ msg = <<>> /\ ra = 0 /\ i = 0 /\ ncmd = 0 /\ last = NoCmd
+    /\ pc = "fresh" /\ op = "none" /\ msg = <<>> /\ ra = 0 /\ i = 0 /\ ncmd = 0 /\ nd = 0 /\ last = NoCmd
 
 Next ==
     \/ Discover
     \/ \E kind \in MsgKinds, n \in 0..(RepCap(tag) + 1) : Begin(NewMsg(kind, n))
     \/ WriteStep(WriteCmd)
     \/ WithCut /\ PowerCut
+    \/ WithOutage /\ Drop
     \/ WithFormat /\ Writeable(tag) /\ \E ver \in {16, 32}, wipe \in {-1, 7} : FBegin(ver, wipe)
     \/ WithFormat /\ FormatStep(FormatCmd)
 
@@ -274,7 +289,7 @@ Confined ==
     /\ op = "format" => InArea(last, 0..NB(tag0))
     /\ pc \in {"rejected", "refused", "ffalse"} => tag = tag0
 
-TypeOK == pc \in {"fresh", "idle", "refused", "rejected", "w_on", "w_data", "done", "cut", "error",
+TypeOK == pc \in {"fresh", "idle", "refused", "rejected", "w_on", "w_data", "done", "cut", "failed", "error",
                   "ffalse", "f_probe", "f_attr", "f_wipe", "fdone"}
 
 \* ------------------------------------------------------------------ reachability witnesses (must be violated)
@@ -287,6 +302,7 @@ W_Batches == ~(pc = "w_data" /\ Len(last.bl) >= 2 /\ i < LastBlk(Len(msg)))
 W_Full == ~(pc = "done" /\ Len(msg) = RepCap(tag0) /\ Len(msg) >= 2 * BS /\ NB(tag) * BS > Len(msg))
 W_Recover == ~(pc = "done" /\ tag0.attr.writef # 0 /\ Len(msg) > 0)
 W_OtherSystem == ~(pc = "done" /\ tag.card.n = 3 /\ tag.card.pos = 2 /\ Len(msg) > BS)
+W_FailedMidway == ~(pc = "failed" /\ ncmd >= 2 /\ RefRead(tag) = NotReadable /\ tag.mem # tag0.mem)
 W_EmptyMsg == ~(pc = "done" /\ Len(msg) = 0 /\ tag0.attr.ln > 0)
 W_FormatWipe == ~(pc = "fdone" /\ ra.wipe >= 0 /\ ncmd > 3 /\ tag.attr.nmaxb > tag0.attr.nmaxb)
 =============================================================================
